@@ -12,6 +12,8 @@ arrays (any number, some empty, some lacking properties), every `cfl`, with
 non-negatives.
 -/
 set_option linter.unusedSectionVars false
+set_option linter.unusedTactic false
+set_option linter.unreachableTactic false
 namespace PysphVerif.C19
 open PysphVerif.AdaptDt
 
@@ -286,6 +288,181 @@ theorem cached_flag_harmless (sqrt : α → α) (arrs0 arrs : List (Arr α)) (cf
     computeTimeStepCached (hasDtAdapt arrs0) sqrt arrs cfl fixedH =
       computeTimeStep sqrt arrs cfl fixedH := by
   simp [computeTimeStepCached, computeTimeStep, explicitDtAdapt, h]
+
+/-! ## whole histories: the integrator as a state machine
+
+`set_fixed_h` and `compute_time_step` are called many times in a run, on
+arrays that change in between.  The theorems below say that the state the
+integrator carries (`_has_dt_adapt`, `fixed_h`, `h_minimum`) never makes a
+step depend on anything but (i) the arrays *now*, (ii) the smallest `h` at the
+latest `set_fixed_h(True)` while it is in force, and (iii) whether some array
+carried `dt_adapt` at the first call. -/
+
+theorem irun_snoc (sqrt : α → α) (ops : List (IOp α)) (op : IOp α) :
+    irun sqrt (ops ++ [op]) = (istep sqrt (irun sqrt ops) op).1 := by
+  simp [irun, List.foldl_append]
+
+theorem lastFixed_snoc (ops : List (IOp α)) (op : IOp α) :
+    lastFixed (ops ++ [op]) = lastFixedStep (lastFixed ops) op := by
+  simp [lastFixed, List.foldl_append]
+
+theorem flagOf_snoc (ops : List (IOp α)) (op : IOp α) :
+    flagOf (ops ++ [op]) = flagStep (flagOf ops) op := by
+  simp [flagOf, List.foldl_append]
+
+/-- how the state after a history relates to the history -/
+def Tracks (s : IState α) (ops : List (IOp α)) : Prop :=
+  s.flag = flagOf ops ∧
+  (s.fixedH = true → ∃ h, s.hMin = some h ∧ lastFixed ops = some h) ∧
+  (s.fixedH = false → lastFixed ops = none)
+
+theorem tracks_step (sqrt : α → α) (s : IState α) (ops : List (IOp α)) (op : IOp α)
+    (h : Tracks s ops) : Tracks (istep sqrt s op).1 (ops ++ [op]) := by
+  obtain ⟨hf, ht, hn⟩ := h
+  unfold Tracks
+  rw [lastFixed_snoc, flagOf_snoc]
+  cases op with
+  | setFixedH b arrs =>
+    cases b with
+    | true =>
+      refine ⟨by simpa [istep, IState.setFixedH, flagStep] using hf, ?_, ?_⟩
+      · intro _; exact ⟨hMinimum arrs, by simp [istep, IState.setFixedH], rfl⟩
+      · intro hc; simp [istep, IState.setFixedH] at hc
+    | false =>
+      refine ⟨by simpa [istep, IState.setFixedH, flagStep] using hf, ?_, ?_⟩
+      · intro hc; simp [istep, IState.setFixedH] at hc
+      · intro _; rfl
+  | cts arrs cfl =>
+    have hflag : ∀ b, s.flag = some b → flagStep (flagOf ops) (IOp.cts arrs cfl) = some b := by
+      intro b hb; rw [← hf, hb]; rfl
+    have hflag0 : s.flag = none →
+        flagStep (flagOf ops) (IOp.cts arrs cfl) = some (hasDtAdapt arrs) := by
+      intro hb; rw [← hf, hb]; rfl
+    simp only [istep, IState.cts, lastFixedStep]
+    cases hsf : s.flag with
+    | none =>
+      rw [hflag0 hsf]
+      simp only [Option.getD_none]
+      cases hex : explicitDtAdaptWith (hasDtAdapt arrs) arrs with
+      | none =>
+        simp only
+        cases hfx : s.fixedH with
+        | true =>
+          obtain ⟨h, hh, hl⟩ := ht hfx
+          simp only [hh, if_true]
+          exact ⟨by first | rfl | trivial | simp, fun _ => ⟨h, rfl, hl⟩, fun hc => by simp at hc⟩
+        | false =>
+          simp only [Bool.false_eq_true, if_false]
+          exact ⟨by first | rfl | trivial | simp, fun hc => by simp at hc, fun _ => hn hfx⟩
+      | val d => exact ⟨by first | rfl | trivial | simp, ht, hn⟩
+      | inf => exact ⟨by first | rfl | trivial | simp, ht, hn⟩
+      | error => exact ⟨by first | rfl | trivial | simp, ht, hn⟩
+    | some b =>
+      rw [hflag b hsf]
+      simp only [Option.getD_some]
+      cases hex : explicitDtAdaptWith b arrs with
+      | none =>
+        simp only
+        cases hfx : s.fixedH with
+        | true =>
+          obtain ⟨h, hh, hl⟩ := ht hfx
+          simp only [hh, if_true]
+          exact ⟨by first | rfl | trivial | simp, fun _ => ⟨h, rfl, hl⟩, fun hc => by simp at hc⟩
+        | false =>
+          simp only [Bool.false_eq_true, if_false]
+          exact ⟨by first | rfl | trivial | simp, fun hc => by simp at hc, fun _ => hn hfx⟩
+      | val d => exact ⟨by first | rfl | trivial | simp, ht, hn⟩
+      | inf => exact ⟨by first | rfl | trivial | simp, ht, hn⟩
+      | error => exact ⟨by first | rfl | trivial | simp, ht, hn⟩
+
+theorem tracks_foldl (sqrt : α → α) (ops : List (IOp α)) (s : IState α) (ops0 : List (IOp α))
+    (h : Tracks s ops0) :
+    Tracks (ops.foldl (fun s op => (istep sqrt s op).1) s) (ops0 ++ ops) := by
+  induction ops generalizing s ops0 with
+  | nil => simpa using h
+  | cons op ops ih =>
+    have := ih (istep sqrt s op).1 (ops0 ++ [op]) (tracks_step sqrt s ops0 op h)
+    simpa [List.append_assoc] using this
+
+/-- every reachable integrator state tracks its history -/
+theorem tracks_run (sqrt : α → α) (ops : List (IOp α)) : Tracks (irun sqrt ops) ops := by
+  have h0 : Tracks (IState.init : IState α) [] :=
+    ⟨rfl, fun hc => by simp [IState.init] at hc, fun _ => rfl⟩
+  simpa [irun] using tracks_foldl sqrt ops IState.init [] h0
+
+/-- **Any call of any history.**  After an arbitrary sequence `pre` of
+`set_fixed_h` / `compute_time_step` calls on arbitrary (changing) arrays, the
+next `compute_time_step` on `arrs` returns what the stateless formula gives for
+`arrs`, with `hmin` the smallest `h` recorded at the latest `set_fixed_h(True)`
+still in force (else the smallest `h` of `arrs`), and with the `dt_adapt` flag
+of the first call. -/
+theorem history_cts (sqrt : α → α) (pre : List (IOp α)) (arrs : List (Arr α)) (cfl : α) :
+    ((irun sqrt pre).cts sqrt arrs cfl).2 =
+      computeTimeStepCached ((flagOf pre).getD (hasDtAdapt arrs)) sqrt arrs cfl
+        (lastFixed pre) := by
+  obtain ⟨hf, ht, hn⟩ := tracks_run sqrt pre
+  generalize irun sqrt pre = s at hf ht hn ⊢
+  simp only [IState.cts, computeTimeStepCached, hf]
+  generalize (flagOf pre).getD (hasDtAdapt arrs) = fl
+  cases hex : explicitDtAdaptWith fl arrs with
+  | none =>
+    simp only
+    cases hfx : s.fixedH with
+    | true =>
+      obtain ⟨h, hh, hl⟩ := ht hfx
+      simp only [hh, if_true, hl]
+    | false =>
+      simp only [Bool.false_eq_true, if_false, hn hfx]
+  | val d => rfl
+  | inf => rfl
+  | error => rfl
+
+/-- **The caches are harmless.**  If the set of arrays carrying `dt_adapt` is
+what it was at the first call, any later call of any history returns exactly
+what a *fresh* integrator (one `set_fixed_h`, one `compute_time_step`) returns
+on the current arrays — so every theorem above about `computeTimeStep` holds at
+every step of every run. -/
+theorem history_cts_fresh (sqrt : α → α) (pre : List (IOp α)) (arrs : List (Arr α)) (cfl : α)
+    (hflag : ∀ b, flagOf pre = some b → b = hasDtAdapt arrs) :
+    ((irun sqrt pre).cts sqrt arrs cfl).2 = computeTimeStep sqrt arrs cfl (lastFixed pre) := by
+  rw [history_cts]
+  cases hfo : flagOf pre with
+  | none => rfl
+  | some b => rw [hflag b hfo]; rfl
+
+/-- `set_fixed_h(True)` always refreshes `h_minimum`: whatever happened before
+(including an earlier `set_fixed_h(True)` on other smoothing lengths), the next
+step uses the smallest `h` of the arrays given to the latest call. -/
+theorem refix_refreshes (sqrt : α → α) (pre : List (IOp α)) (arrs' arrs : List (Arr α))
+    (cfl : α) :
+    ((irun sqrt (pre ++ [IOp.setFixedH true arrs'])).cts sqrt arrs cfl).2 =
+      computeTimeStepCached ((flagOf pre).getD (hasDtAdapt arrs)) sqrt arrs cfl
+        (some (hMinimum arrs')) := by
+  rw [history_cts, lastFixed_snoc, flagOf_snoc]; rfl
+
+/-- `set_fixed_h(False)` drops the cached value for good: the next step uses
+the smallest `h` of the current arrays. -/
+theorem unfix_recomputes (sqrt : α → α) (pre : List (IOp α)) (arrs' arrs : List (Arr α))
+    (cfl : α) :
+    ((irun sqrt (pre ++ [IOp.setFixedH false arrs'])).cts sqrt arrs cfl).2 =
+      computeTimeStepCached ((flagOf pre).getD (hasDtAdapt arrs)) sqrt arrs cfl none := by
+  rw [history_cts, lastFixed_snoc, flagOf_snoc]; rfl
+
+/-- the `AttributeError` branch of the model (`fixed_h` set, `h_minimum` never
+assigned) is unreachable -/
+theorem fixed_has_hmin (sqrt : α → α) (ops : List (IOp α))
+    (h : (irun sqrt ops).fixedH = true) : ((irun sqrt ops).hMin).isSome = true := by
+  obtain ⟨h', hh, _⟩ := (tracks_run sqrt ops).2.1 h
+  simp [hh]
+
+/-- non-vacuity: a history with two `set_fixed_h(True)` calls on different `h` -/
+example :
+    let a : Arr ℚ := { nAll := 1, hAll := [2], dtAdapt := none,
+                        dtCfl := some [1], dtForce := none, dtVisc := none }
+    let b : Arr ℚ := { nAll := 1, hAll := [1], dtAdapt := none,
+                        dtCfl := some [1], dtForce := none, dtVisc := none }
+    ((irun (fun x => x) [IOp.setFixedH true [a], IOp.cts [a] 1, IOp.setFixedH true [b]]).cts
+        (fun x => x) [b] 1).2 = Res.val 1 := by decide +kernel
 
 /-! ## non-vacuity: concrete states meeting the hypotheses (over ℚ) -/
 
